@@ -6,6 +6,7 @@ import (
 	"os/exec"
 	"os/user"
 	"path/filepath"
+	"sort"
 	"strconv"
 	"strings"
 	"sync"
@@ -36,13 +37,16 @@ type rowT struct {
 }
 
 type stepT struct {
-	K    string `json:"k"`              // sel | sfu | ins | upd | del | insfrom | commit | rollback | b
+	K    string `json:"k"`              // sel | sfu | msel | ins | upd | del | upd2 | insfrom | commit | rollback | b
 	T    int    `json:"t"`              // table index (0: t1, 1: t2)
 	Src  int    `json:"src,omitempty"`  // insfrom: source table
 	Form int    `json:"form,omitempty"` // spelling of the table reference (see tableRef)
 	ID   int    `json:"id,omitempty"`   // ins: new id; upd/del: addressed id
 	Null bool   `json:"null,omitempty"` // ins/upd: the value is NULL
 	BK   string `json:"bk,omitempty"`   // b: upd | ins | del | updall
+	J    string `json:"j,omitempty"`    // msel: comma | cross | inner | full | union | notin (T is the first table, the other one the second)
+	FU   bool   `json:"fu,omitempty"`   // msel: FOR UPDATE
+	ID2  int    `json:"id2,omitempty"`  // upd2: id addressed in the second table
 }
 
 type histCase struct {
@@ -200,10 +204,121 @@ func edit(rows []mrow, kind string, id int, v string, null bool) []mrow {
 	return out
 }
 
+const nullKey = "\x00NULL"
+
+func key(cells ...string) string { return strings.Join(cells, "\x1f") }
+
+func cellKey(r mrow) string {
+	if r.null {
+		return nullKey
+	}
+	return r.v
+}
+
+// multiExpected is the result of a two-table read over l and r (select-query.md: cross join / comma list =
+// every combination; inner join = the combinations satisfying the condition; full outer join additionally keeps
+// the unmatched rows of both sides with NULLs; UNION ALL = all rows of both; NOT IN subquery = a filter on l).
+// The rows are rendered as strings; ordered tells whether the sequence (and not only the multiset) is fixed.
+func multiExpected(j string, l, r []mrow) (rows []string, ordered bool) {
+	switch j {
+	case "comma", "cross":
+		for _, a := range l {
+			for _, b := range r {
+				rows = append(rows, key(a.id, cellKey(a), b.id, cellKey(b)))
+			}
+		}
+	case "inner", "full":
+		matchedR := make([]bool, len(r))
+		for _, a := range l {
+			matched := false
+			for k, b := range r {
+				if idOf(a) == idOf(b) {
+					rows = append(rows, key(a.id, cellKey(a), b.id, cellKey(b)))
+					matched, matchedR[k] = true, true
+				}
+			}
+			if !matched && j == "full" {
+				rows = append(rows, key(a.id, cellKey(a), nullKey, nullKey))
+			}
+		}
+		if j == "full" {
+			for k, b := range r {
+				if !matchedR[k] {
+					rows = append(rows, key(nullKey, nullKey, b.id, cellKey(b)))
+				}
+			}
+		}
+	case "union":
+		for _, a := range l {
+			rows = append(rows, key(a.id, cellKey(a)))
+		}
+		for _, b := range r {
+			rows = append(rows, key(b.id, cellKey(b)))
+		}
+	case "notin":
+		for _, a := range l {
+			in := false
+			for _, b := range r {
+				if idOf(a) == idOf(b) {
+					in = true
+				}
+			}
+			if !in {
+				rows = append(rows, key(a.id, cellKey(a)))
+			}
+		}
+		return rows, true
+	}
+	sort.Strings(rows)
+	return rows, false
+}
+
+// rowsAfter: what the table's copy will be after a plain (fu false) or for-update access.
+func (m *model) rowsAfter(t int, fu bool) []mrow {
+	if m.C[t] != nil && (m.C[t].fu || !fu) {
+		return m.C[t].rows
+	}
+	return m.F[t]
+}
+
+// needsBoth: the forms whose result cannot be produced without loading both tables. A cross / inner join with an
+// empty side, or a subquery in the WHERE clause of an empty table, could be answered without looking at the other
+// table; whether that table counts as loaded is then not determined by the manual, so these shapes are left out.
+func needsBoth(j string, l, r []mrow) bool {
+	switch j {
+	case "comma", "cross", "inner":
+		return len(l) > 0 && len(r) > 0
+	case "notin":
+		return len(l) > 0
+	}
+	return true
+}
+
+// showKeys renders multi-table result rows for messages.
+func showKeys(rows []string) string {
+	out := make([]string, len(rows))
+	for i, r := range rows {
+		out[i] = "(" + strings.ReplaceAll(strings.ReplaceAll(r, nullKey, "NULL"), "\x1f", ",") + ")"
+	}
+	return "[" + strings.Join(out, " ") + "]"
+}
+
+func countID(rows []mrow, id int) int {
+	n := 0
+	for _, r := range rows {
+		if idOf(r) == id {
+			n++
+		}
+	}
+	return n
+}
+
 // ---------------------------------------------------------------------
 // generator (steered by the same pure model so that the interesting rules are frequent)
 
-var kinds = []string{"sel", "sfu", "dml", "insfrom", "commit", "rollback", "b"}
+var kinds = []string{"sel", "sfu", "dml", "insfrom", "commit", "rollback", "b", "msel", "upd2"}
+
+var joinForms = []string{"comma", "cross", "inner", "full", "union", "notin"}
 
 func genCase(t *rapid.T) histCase { return genHist(t, false) }
 
@@ -245,6 +360,7 @@ func genHist(t *rapid.T, bproc bool) histCase {
 	}
 	nsteps := fw.Range(t, "nsteps", 4, 20)
 	follow := -1 // a table A has read in this transaction and B has just committed to
+	probe := -1  // the second table of a multi-table SELECT FOR UPDATE that has just run
 	for i := 0; i < nsteps; i++ {
 		var s stepT
 		allHeld, someHeld := true, false
@@ -256,9 +372,19 @@ func genHist(t *rapid.T, bproc bool) histCase {
 			}
 		}
 		kind := ""
-		if follow >= 0 && fw.Pct(t, "follow", 55) {
-			kind = []string{"sel", "sel", "sel", "sfu", "dml"}[fw.Uniform(t, "follow_kind", 5)]
+		if probe >= 0 && fw.Pct(t, "probe", 40) {
+			// does the second table of the multi-table FOR UPDATE keep other processes out? does A then change the held copy?
+			kind = []string{"b", "b", "dml"}[fw.Uniform(t, "probe_kind", 3)]
+			s.T = probe
+		} else if follow >= 0 && fw.Pct(t, "follow", 55) {
+			kind = []string{"sel", "sel", "sel", "sfu", "dml", "msel"}[fw.Uniform(t, "follow_kind", 6)]
+			if kind == "msel" && nt < 2 {
+				kind = "sel"
+			}
 			s.T = follow
+			if kind == "msel" && fw.Pct(t, "follow_second", 50) {
+				s.T = 1 - follow
+			}
 		} else {
 			wb := 32
 			if allHeld {
@@ -268,7 +394,11 @@ func genHist(t *rapid.T, bproc bool) histCase {
 			if nt == 2 {
 				wins = 5
 			}
-			kind = kinds[fw.Weighted(t, "kind", []int{30, 6, 15, wins, 6, 5, wb})]
+			wms, wu2 := 0, 0
+			if nt == 2 {
+				wms, wu2 = 14, 3
+			}
+			kind = kinds[fw.Weighted(t, "kind", []int{30, 6, 15, wins, 6, 5, wb, wms, wu2})]
 			s.T = fw.Uniform(t, "table", nt)
 			if kind == "b" && nt == 2 && someHeld && !allHeld && fw.Pct(t, "b_free_table", 75) {
 				if m.held(s.T) {
@@ -276,8 +406,49 @@ func genHist(t *rapid.T, bproc bool) histCase {
 				}
 			}
 		}
-		follow = -1
+		follow, probe = -1, -1
 		switch kind {
+		case "msel":
+			s.K = "msel"
+			s.J = joinForms[fw.Weighted(t, "join", []int{20, 15, 15, 20, 15, 15})]
+			s.FU = s.J != "notin" && fw.Pct(t, "msel_for_update", 40)
+			if !needsBoth(s.J, m.rowsAfter(s.T, s.FU), m.rowsAfter(1-s.T, s.FU)) {
+				s.J = []string{"full", "union"}[fw.Uniform(t, "join_both", 2)]
+			}
+			s.Form = fw.Uniform(t, "form", 3)
+			for _, k := range []int{s.T, 1 - s.T} {
+				if s.FU {
+					m.updAccess(k)
+				} else {
+					m.plainRead(k)
+				}
+				readInTxn[k] = true
+			}
+			if s.FU {
+				probe = 1 - s.T
+			}
+		case "upd2":
+			rowsAfter := func(k int) []mrow { return m.rowsAfter(k, true) }
+			s.ID = aim("a_id", rowsAfter(s.T))
+			s.ID2 = aim("a_id2", rowsAfter(1-s.T))
+			n1, n2 := countID(rowsAfter(s.T), s.ID), countID(rowsAfter(1-s.T), s.ID2)
+			if n1 > 1 || n2 > 1 || len(rowsAfter(s.T)) == 0 || len(rowsAfter(1-s.T)) == 0 {
+				// a record joined to several partners would be assigned twice (an error in csvq): outside this property;
+				// an empty side: see needsBoth
+				s = stepT{K: "sfu", T: s.T}
+				m.updAccess(s.T)
+				readInTxn[s.T] = true
+				break
+			}
+			s.K = "upd2"
+			s.Form = fw.Uniform(t, "form", 3)
+			m.updAccess(s.T)
+			m.updAccess(1 - s.T)
+			if n1 == 1 && n2 == 1 {
+				m.C[s.T].rows = edit(m.C[s.T].rows, "upd", s.ID, "x", false)
+				m.C[1-s.T].rows = edit(m.C[1-s.T].rows, "upd", s.ID2, "x", false)
+				m.C[s.T].dirty, m.C[1-s.T].dirty = true, true
+			}
 		case "sel":
 			s.K = "sel"
 			s.Form = fw.Uniform(t, "form", 5)
@@ -724,6 +895,120 @@ func checkHistLimit(c histCase, procLimit time.Duration) (fw.Outcome, *fw.Violat
 			noteRead(s.T)
 			tok("f" + rule + tn)
 
+		case "msel":
+			if nt != 2 || (s.J == "notin" && s.FU) {
+				o.Discard = true
+				return o, nil
+			}
+			l, r := s.T, 1-s.T
+			lref, rref := tableRef(dir, l, s.Form%3), tableRef(dir, r, (s.Form+1)%3)
+			var stmt string
+			switch s.J {
+			case "comma":
+				stmt = fmt.Sprintf("SELECT a.id, a.v, b.id, b.v FROM %s a, %s b", lref, rref)
+			case "cross":
+				stmt = fmt.Sprintf("SELECT a.id, a.v, b.id, b.v FROM %s a CROSS JOIN %s b", lref, rref)
+			case "inner":
+				stmt = fmt.Sprintf("SELECT a.id, a.v, b.id, b.v FROM %s a JOIN %s b ON a.id = b.id", lref, rref)
+			case "full":
+				stmt = fmt.Sprintf("SELECT a.id, a.v, b.id, b.v FROM %s a FULL OUTER JOIN %s b ON a.id = b.id", lref, rref)
+			case "union":
+				stmt = fmt.Sprintf("SELECT id, v FROM %s UNION ALL SELECT id, v FROM %s", lref, rref)
+			case "notin":
+				stmt = fmt.Sprintf("SELECT id, v FROM %s WHERE id NOT IN (SELECT id FROM %s)", lref, rref)
+			default:
+				o.Discard = true
+				return o, nil
+			}
+			if !needsBoth(s.J, m.rowsAfter(l, s.FU), m.rowsAfter(r, s.FU)) {
+				o.Discard = true
+				return o, nil
+			}
+			rules := make([]string, 2)
+			for k, tb := range []int{l, r} {
+				if s.FU {
+					// FOR UPDATE takes the exclusive lock on every table the query loads
+					rules[k] = m.updAccess(tb)
+					if rules[k] == "H" && m.C[tb].dirty {
+						rules[k] = "Hd"
+					}
+				} else {
+					_, rules[k] = m.plainRead(tb)
+				}
+			}
+			if s.FU {
+				stmt += " FOR UPDATE"
+			}
+			stmt += ";"
+			want, ordered := multiExpected(s.J, m.C[l].rows, m.C[r].rows)
+			res := execA(stmt)
+			mode := "plain"
+			if s.FU {
+				mode = "for_update"
+			}
+			if res.Err != nil {
+				return o, fw.V("a_read_error", "%s failed in transaction A: %s %v%s", stmt, run.ErrClass(res.Err), res.Err, tail())
+			}
+			if len(res.Views) != 1 {
+				return o, fw.V("a_read_shape", "%s returned %d results%s", stmt, len(res.Views), tail())
+			}
+			var got []string
+			for _, rw := range res.Views[0].Rows {
+				cells := make([]string, len(rw))
+				for k, cv := range rw {
+					cells[k] = cv.S
+					if cv.IsNull() {
+						cells[k] = nullKey
+					}
+				}
+				got = append(got, key(cells...))
+			}
+			if !ordered {
+				sort.Strings(got)
+			}
+			if strings.Join(got, "\n") != strings.Join(want, "\n") {
+				return o, fw.V("multi_table_read:"+mode+":"+rules[0]+"/"+rules[1], "%s in transaction A returned %s; expected %s from %s = %s (%s) and %s = %s (%s); files now %s, %s%s",
+					stmt, showKeys(got), showKeys(want), tableName(l), render(m.C[l].rows), ruleText[rules[0]], tableName(r), render(m.C[r].rows), ruleText[rules[1]], render(m.F[l]), render(m.F[r]), tail())
+			}
+			class("A.multi_select:" + s.J + ":" + mode)
+			class("A.multi_select:" + mode + ":second_table:" + rules[1])
+			for _, tb := range []int{l, r} {
+				prevSet[tb], bUnloaded[tb] = false, false
+				noteRead(tb)
+			}
+			tok("m" + s.J[:2] + rules[0] + rules[1] + tn)
+
+		case "upd2":
+			if nt != 2 {
+				o.Discard = true
+				return o, nil
+			}
+			l, r := s.T, 1-s.T
+			rl, rr := m.updAccess(l), m.updAccess(r)
+			n1, n2 := countID(m.C[l].rows, s.ID), countID(m.C[r].rows, s.ID2)
+			if n1 > 1 || n2 > 1 || len(m.C[l].rows) == 0 || len(m.C[r].rows) == 0 {
+				// a record joined to several partners is assigned twice, which csvq refuses: outside this property;
+				// an empty side: see needsBoth
+				o.Discard = true
+				return o, nil
+			}
+			stmt := fmt.Sprintf("UPDATE a, b SET a.v = '%s', b.v = '%s' FROM %s a, %s b WHERE a.id = %d AND b.id = %d;", atag, atag, tableRef(dir, l, s.Form%3), tableRef(dir, r, (s.Form+1)%3), s.ID, s.ID2)
+			res := execA(stmt)
+			if res.Err != nil {
+				return o, fw.V("a_change_error", "%s failed in transaction A (no other process holds anything): %s %v%s", stmt, run.ErrClass(res.Err), res.Err, tail())
+			}
+			if n1 == 1 && n2 == 1 {
+				m.C[l].rows = edit(m.C[l].rows, "upd", s.ID, atag, false)
+				m.C[r].rows = edit(m.C[r].rows, "upd", s.ID2, atag, false)
+				m.C[l].dirty, m.C[r].dirty = true, true
+			}
+			class("A.update_two_tables:first:" + rl)
+			class("A.update_two_tables:second:" + rr)
+			for _, tb := range []int{l, r} {
+				prevSet[tb], bUnloaded[tb] = false, false
+			}
+			tok("u" + rl + rr + tn)
+
 		case "ins", "upd", "del":
 			stmt := changeSQL(tableRef(dir, s.T, s.Form%3), s.K, s.ID, atag, s.Null)
 			rule := m.updAccess(s.T)
@@ -749,7 +1034,8 @@ func checkHistLimit(c histCase, procLimit time.Duration) (fw.Outcome, *fw.Violat
 			cch := m.C[s.T]
 			cch.rows = append(cch.rows, src...)
 			cch.dirty = true
-			class("A.insert_select:" + rule + "<-" + srule)
+			class("A.insert_select:" + rule)
+			class("A.insert_select:source:" + srule)
 			prevSet[s.T], bUnloaded[s.T] = false, false
 			prevSet[s.Src], bUnloaded[s.Src] = false, false
 			tok("i" + rule + srule + tn)
@@ -892,12 +1178,15 @@ func checkHistLimit(c histCase, procLimit time.Duration) (fw.Outcome, *fw.Violat
 	return o, nil
 }
 
-const ruleDoc = "1-2 CSV tables (id, v; 0-4 rows, NULL cells) and a history of 4-20 steps generated up front: transaction A (one in-process session for the whole history) does SELECT (table spelled as name / file name / absolute path / aliased / CSV() table function), SELECT FOR UPDATE, INSERT, UPDATE, DELETE, INSERT..SELECT from the other table, COMMIT, ROLLBACK; between A's statements other processes B (each a fresh Session+Transaction+Processor on the same directory, 50 ms lock wait) UPDATE/INSERT/DELETE one table, COMMIT through the real file layer and end. Model per table: file contents F and A's cache (none | snapshot, for-update flag, own changes): plain SELECT loads F if nothing is cached, else returns the cache; the first data-changing / FOR UPDATE access to a copy loaded by a plain SELECT reloads F (the documented exception) and holds the table; later reads = snapshot + own changes; COMMIT writes changed tables and empties the cache, ROLLBACK empties it. Every A read is compared with the model as a sequence of rows (text + NULL-ness); B must commit iff A does not hold the table for update, else fail with the lock-timeout error 90082 leaving the files byte-identical; at the end the files (read by a new session) equal F. Non-trivial = a successful B commit between two A reads of the same table inside one A transaction; distinct by the compressed sequence of (step kind, model rule, table)"
+const ruleDoc = "1-2 CSV tables (id, v; 0-4 rows, NULL cells) and a history of 4-20 steps generated up front: transaction A (one in-process session for the whole history) does SELECT (table spelled as name / file name / absolute path / aliased / CSV() table function), SELECT FOR UPDATE, two-table reads (comma list, CROSS / inner / FULL OUTER JOIN, UNION ALL, NOT IN subquery over the other table; the join and set forms also FOR UPDATE, which holds every table of the query), INSERT, UPDATE, DELETE, UPDATE a, b .. FROM over both tables, INSERT..SELECT from the other table, COMMIT, ROLLBACK; between A's statements other processes B (each a fresh Session+Transaction+Processor on the same directory, 50 ms lock wait) UPDATE/INSERT/DELETE one table, COMMIT through the real file layer and end. Model per table: file contents F and A's cache (none | snapshot, for-update flag, own changes): plain SELECT loads F if nothing is cached, else returns the cache; the first data-changing / FOR UPDATE access to a copy loaded by a plain SELECT reloads F (the documented exception) and holds the table; later reads = snapshot + own changes; COMMIT writes changed tables and empties the cache, ROLLBACK empties it. Every A read is compared with the model as a sequence of rows (text + NULL-ness; two-table joins and unions as a multiset); B must commit iff A does not hold the table for update, else fail with the lock-timeout error 90082 leaving the files byte-identical; at the end the files (read by a new session) equal F. Non-trivial = a successful B commit between two A reads of the same table inside one A transaction; distinct by the compressed sequence of (step kind, model rule, table)"
 
 var assumptions = []string{
 	"other processes act between A's statements (statement-level interleaving); interleavings inside one statement's file-system steps belong to C09",
 	"B's lock wait (50 ms) is semantic: A holds its locks for as long as B waits. When the model says B must succeed and B times out it is retried once with 30 s; a context-done error instead of the lock-timeout error (50 ms over before the first attempt) is retried with 2 s",
 	"cells are plain text or NULL (empty CSV field); ids are decimal so that WHERE id = n addresses the rows the model addresses",
+	"SELECT ... FOR UPDATE holds every table its FROM clause (or the operands of its set operator) loads; FOR UPDATE is not combined with subqueries (whether the subquery's table is locked is not documented)",
+	"a cross / inner join with an empty side and a WHERE-subquery over an empty outer table are not generated: they can be answered without loading the other table, and whether it then counts as loaded is not documented",
+	"UPDATE a, b ... FROM addresses at most one record per table (a record joined to several partners is an error in csvq); such cases are not generated",
 	"INSERT appends, UPDATE/DELETE keep the order of the remaining rows (C05's subject) - used only to predict the table after a change",
 }
 
